@@ -1,6 +1,7 @@
 (* C11 -- selection proofs: data slices are the bounding box, exact
-   characterisation of the slice path, mask and phase paths, simulation of the
-   reference by the model, induction over selection histories. *)
+   characterisation of the slice path (intersection with the map being
+   indexed), mask and phase paths, simulation of the reference by the model,
+   induction over selection histories. *)
 From Coq Require Import String Ascii ZArith QArith Qround List Bool Lia Arith.
 From Verif Require Import NdIndex C11CMap C11Nd.
 Import ListNotations.
@@ -11,21 +12,17 @@ Open Scope nat_scope.
 Definition axis_ok (s : list nat) (d : nat) (a : list Q * Q) : Prop :=
   length (fst a) = size s /\
   (forall p, p < size s ->
-     rhe (nth p (fst a) 0%Q / snd a)%Q = Z.of_nat (ix s d p) /\
-     rhe (nth p (fst a) 0%Q / snd a + 1)%Q = (Z.of_nat (ix s d p) + 1)%Z) /\
+     rhe ((nth p (fst a) 0%Q - qminl (fst a)) / snd a)%Q = Z.of_nat (ix s d p) /\
+     rhe ((nth p (fst a) 0%Q - qminl (fst a)) / snd a + 1)%Q = (Z.of_nat (ix s d p) + 1)%Z) /\
   (forall p q, p < size s -> q < size s -> ix s d p <= ix s d q ->
      (nth p (fst a) 0%Q <= nth q (fst a) 0%Q)%Q).
-
-(* the selection is a full rectangle *)
-Definition rect (s : list nat) (ids : list nat) : Prop :=
-  forall p, p < size s -> in_win (unravel s p) (bbox s ids) = true -> In p ids.
 
 Definition phases_ok (phases : list (Z * string)) : Prop :=
   phases <> [] /\ forall ph, In ph phases -> is_indexed_kw (snd ph) = false.
 
 Definition guard (g : grid) (ids : list nat) (k : key) : Prop :=
   match k with
-  | KSel _ => rect (g_shape g) ids
+  | KSel _ => True
   | KPhase _ => phases_ok (g_phases g)
   | KMask _ => True
   end.
@@ -44,13 +41,6 @@ Proof.
   - intros H. exists i. split; [assumption | apply Nat.eqb_refl].
 Qed.
 
-Lemma rectb_rect s ids : rectb s ids = true -> rect s ids.
-Proof.
-  unfold rectb, rect. intros H p Hp Hw.
-  rewrite forallb_forall in H. specialize (H p). rewrite in_seq in H.
-  specialize (H ltac:(lia)). rewrite Hw in H. simpl in H. apply memb_In; assumption.
-Qed.
-
 Lemma phases_okb_ok ph : phases_okb ph = true -> phases_ok ph.
 Proof.
   unfold phases_okb, phases_ok. rewrite andb_true_iff, negb_true_iff, Nat.eqb_neq, forallb_forall.
@@ -61,7 +51,7 @@ Qed.
 
 Lemma guardb_guard g ids k : guardb g ids k = true -> guard g ids k.
 Proof.
-  destruct k; simpl; intros H; [apply rectb_rect | exact I | apply phases_okb_ok]; assumption.
+  destruct k; simpl; intros H; [exact I | exact I | apply phases_okb_ok; assumption].
 Qed.
 
 Lemma hist_guardb_guard g ids ops : hist_guardb g ids ops = true -> hist_guard g ids ops.
@@ -205,7 +195,7 @@ Proof.
     rewrite E1 in Hle2.
     assert (Heq : (qminl (map (fun i => nth i c 0%Q) ids) == nth p2 c 0%Q)%Q)
       by (apply Qle_antisym; assumption).
-    rewrite (rhe_comp _ (nth p2 c 0%Q / st)%Q) by (rewrite Heq; reflexivity).
+    rewrite (rhe_comp _ ((nth p2 c 0%Q - qminl c) / st)%Q) by (rewrite Heq; reflexivity).
     destruct (Hrhe p2 (Hidlt p2 Hp2)) as [H1 _]. rewrite H1, E2. reflexivity.
   - (* maximum *)
     pose proof (nmaxl_In _ Hm) as Hmax. apply in_map_iff in Hmax as [p2 [E2 Hp2]].
@@ -219,7 +209,7 @@ Proof.
     rewrite E1 in Hle2.
     assert (Heq : (qmaxl (map (fun i => nth i c 0%Q) ids) == nth p2 c 0%Q)%Q)
       by (apply Qle_antisym; assumption).
-    rewrite (rhe_comp _ (nth p2 c 0%Q / st + 1)%Q) by (rewrite Heq; reflexivity).
+    rewrite (rhe_comp _ ((nth p2 c 0%Q - qminl c) / st + 1)%Q) by (rewrite Heq; reflexivity).
     destruct (Hrhe p2 (Hidlt p2 Hp2)) as [_ H1]. rewrite H1, E2. lia.
 Qed.
 
@@ -313,7 +303,8 @@ Theorem window_assign_bbox s old ids (S : list nat -> bool) :
   length old = size s -> ids <> [] -> (forall p, In p ids -> p < size s) ->
   window_assign s old (zbox (bbox s ids)) (wshape_of (bbox s ids)) S =
   Ok (map (fun p => if in_win (unravel s p) (bbox s ids)
-                    then S (rel_idx (unravel s p) (bbox s ids)) else nth p old false)
+                    then nth p old false && S (rel_idx (unravel s p) (bbox s ids))
+                    else nth p old false)
           (seq 0 (size s))).
 Proof.
   intros Hl Hne Hlt. unfold window_assign.
@@ -333,9 +324,14 @@ Proof.
 Qed.
 
 (* ------------------------------------------------------- slice path *)
-(* EXACT characterisation of what the slice path selects (no rectangle
-   assumption): every point of the bounding box whose relative index is hit by
-   the key -- whether or not it was in the data. *)
+Lemma acc_id_filter (m : cmap) :
+  wf m -> acc_id m = filter (fun p => nth p (ind m) false) (seq 0 (size (oshape m))).
+Proof. intros (Hi & _). unfold acc_id. rewrite ids_of_filter, Hi. reflexivity. Qed.
+
+(* EXACT characterisation of what the slice path selects, for ANY selection
+   (rectangular or not): the points OF THE MAP BEING INDEXED whose bounding-box
+   relative index is hit by the key -- the intersection of the key with the
+   old mask. *)
 Theorem getitem_sel_exact (m : cmap) ks Is :
   wf m -> acc_id m <> [] -> ks <> [] ->
   let bb := bbox (oshape m) (acc_id m) in
@@ -343,9 +339,7 @@ Theorem getitem_sel_exact (m : cmap) ks Is :
   mapM2 key_idx (ks ++ repeat kfull (length (wshape_of bb) - length ks)) (wshape_of bb) = Ok Is ->
   exists m', getitem m (KSel ks) = Ok m' /\ same_arrays m m' /\
     length (ind m') = length (ind m) /\
-    acc_id m' = filter (fun p => in_win (unravel (oshape m) p) bb &&
-                                 forallb2 memb (rel_idx (unravel (oshape m) p) bb) Is)
-                       (seq 0 (size (oshape m))).
+    acc_id m' = filter (fun p => forallb2 memb (rel_idx (unravel (oshape m) p) bb) Is) (acc_id m).
 Proof.
   intros Hwf Hne Hks bb Hlen HIs.
   pose proof Hwf as (Hi & Hp & Hg).
@@ -359,24 +353,22 @@ Proof.
   eexists. split; [reflexivity|]. split; [reflexivity|]. simpl.
   split; [rewrite map_length, seq_length; congruence|].
   unfold acc_id at 1. simpl. rewrite ids_of_map_seq.
+  rewrite (acc_id_filter m Hwf). rewrite filter_filter.
   apply filter_ext_in. intros p Hp'. apply in_seq in Hp'.
-  destruct (in_win (unravel (oshape m) p) bb) eqn:E; [reflexivity|]. simpl.
+  destruct (in_win (unravel (oshape m) p) bb) eqn:E; [reflexivity|].
   destruct (nth p (ind m) false) eqn:En; [|reflexivity].
   assert (Hin : In p (acc_id m)) by (apply ids_of_In; split; [lia | assumption]).
   apply (ids_in_bbox (oshape m)) in Hin. fold bb in Hin. congruence.
 Qed.
 
-Lemma acc_id_filter (m : cmap) :
-  wf m -> acc_id m = filter (fun p => nth p (ind m) false) (seq 0 (size (oshape m))).
-Proof. intros (Hi & _). unfold acc_id. rewrite ids_of_filter, Hi. reflexivity. Qed.
-
+(* the slice path follows the reference in EVERY state of a well-formed map *)
 Theorem sim_sel (m : cmap) ks ids' :
-  wf m -> rect (oshape m) (acc_id m) ->
+  wf m ->
   ref_getitem (static m) (acc_id m) (KSel ks) = Ok ids' ->
   exists m', getitem m (KSel ks) = Ok m' /\ same_arrays m m' /\
              length (ind m') = length (ind m) /\ acc_id m' = ids'.
 Proof.
-  intros Hwf Hrect Href. simpl in Href.
+  intros Hwf Href. simpl in Href.
   destruct ks as [|k0 ks']; [discriminate|].
   destruct (acc_id m) as [|i0 ids0] eqn:Eids; [discriminate|].
   rewrite <- Eids in *.
@@ -386,16 +378,7 @@ Proof.
   apply bind_ok in Href as (Is & HIs & Href). inversion Href; subst ids'; clear Href.
   destruct (getitem_sel_exact m (k0 :: ks') Is Hwf Hne ltac:(discriminate) Elen HIs)
     as (m' & Hg & Hsame & Hl & Hid).
-  exists m'. repeat split; try assumption.
-  rewrite Hid. fold bb.
-  rewrite (acc_id_filter m Hwf) at 1. rewrite filter_filter.
-  apply filter_ext_in. intros p Hp. apply in_seq in Hp.
-  destruct (in_win (unravel (oshape m) p) bb) eqn:E.
-  - assert (Hin : In p (acc_id m)) by (apply Hrect; [lia | assumption]).
-    apply ids_of_In in Hin as [_ Hin]. rewrite Hin. reflexivity.
-  - destruct (nth p (ind m) false) eqn:En; [|reflexivity].
-    assert (Hin : In p (acc_id m)) by (apply ids_of_In; destruct Hwf as (Hi & _); split; [lia | assumption]).
-    apply (ids_in_bbox (oshape m)) in Hin. fold bb in Hin. congruence.
+  exists m'. repeat split; assumption.
 Qed.
 
 (* -------------------------------------------------------- mask path *)
@@ -623,4 +606,54 @@ Proof.
   - inversion H; subst. apply incl_refl.
   - apply bind_ok in H as (ids1 & H1 & H2).
     eapply incl_tran; [eapply IH; eassumption | eapply ref_getitem_incl; eassumption].
+Qed.
+
+(* ------------------------------ the MODEL never adds a point (no guard) *)
+Lemma window_assign_sub s old ds vs (S : list nat -> bool) i' :
+  window_assign s old ds vs S = Ok i' ->
+  length i' = length old /\ forall p, nth p i' false = true -> nth p old false = true.
+Proof.
+  unfold window_assign.
+  destruct (negb (length old =? size s)); [discriminate|].
+  destruct (negb (length ds =? length s)); [discriminate|].
+  destruct (negb (forallb2 _ _ _)); [discriminate|].
+  intros H; injection H as H; subst i'.
+  split; [rewrite map_length, seq_length; reflexivity|].
+  intros p Hp. destruct (Nat.lt_ge_cases p (length old)) as [Hlt|Hge].
+  - rewrite (map_seq_nth _ _ _ false Hlt) in Hp.
+    destruct (in_win _ _); [apply andb_true_iff in Hp; tauto | assumption].
+  - rewrite nth_overflow in Hp by (rewrite map_length, seq_length; lia). discriminate.
+Qed.
+
+(* whatever the map (well-formed grid or not) and whatever the key, a
+   successful selection only contains points of the map being indexed *)
+Theorem getitem_incl {V R} (m m' : cmap V R) k :
+  getitem m k = Ok m' -> incl (acc_id m') (acc_id m).
+Proof.
+  destruct k as [ks|b|names]; simpl.
+  - unfold getitem_sel. destruct ks; [discriminate|].
+    intros H. apply bind_ok in H as (shp & _ & H).
+    destruct (_ <? _); [discriminate|].
+    apply bind_ok in H as (Is & _ & H). apply bind_ok in H as (ds & _ & H).
+    apply bind_ok in H as (i' & Hw & H). injection H as H. subst m'.
+    apply window_assign_sub in Hw as [Hl Hsub].
+    unfold acc_id. simpl. intros p Hp. apply ids_of_In in Hp as [Hp1 Hp2].
+    apply ids_of_In. split; [lia | apply Hsub; assumption].
+  - unfold getitem_mask. destruct (_ =? _).
+    + intros H; injection H as H; subst m'. unfold acc_id; simpl.
+      rewrite ids_of_scatter. apply mask_filter_incl.
+    + destruct (_ =? _); [|discriminate]. intros H; injection H as H; subst m'.
+      unfold acc_id; simpl. rewrite ids_of_scatter. apply mask_filter_incl.
+  - unfold getitem_phase. destruct names; [discriminate|].
+    intros H; injection H as H; subst m'. unfold acc_id; simpl.
+    rewrite ids_of_scatter. apply mask_filter_incl.
+Qed.
+
+Theorem run_incl {V R} ops : forall (m m' : cmap V R),
+  run m ops = Ok m' -> incl (acc_id m') (acc_id m).
+Proof.
+  induction ops as [|k rest IH]; intros m m' H; simpl in H.
+  - injection H as H; subst. apply incl_refl.
+  - apply bind_ok in H as (m1 & H1 & H2).
+    eapply incl_tran; [eapply IH; eassumption | eapply getitem_incl; eassumption].
 Qed.
